@@ -333,9 +333,52 @@ def _close(a, b, rtol=1e-9):
     return abs(a - b) <= rtol * max(1.0, abs(b))
 
 
+def successive_requests(ctx):
+    """samples gathered over SUCCESSIVE requests (a population of starting points built call by call, generate_guess
+    followed by prior.sample) are fresh draws: pooled they follow the declared distribution and no request replays
+    what an earlier one handed out"""
+    rng = ctx.rng
+    rounds = 2 if ctx.tier == "quick" else 8
+    for rnd in range(rounds):
+        np.random.seed(int(rng.integers(0, 2 ** 31)))
+        lo, w = float(rng.uniform(-5, 5)), float(rng.uniform(0.5, 4))
+        mu, sd = float(rng.normal() * 3), float(rng.uniform(0.1, 2))
+        u, g, b = Uniform(lo, lo + w), Gaussian(mu, sd), BoundedGaussian(mu, sd, mu - 0.7 * sd, mu + 1.9 * sd)
+        pars = [u, g, b]
+        info = dict(kind="successive", lo=lo, hi=lo + w, mu=mu, sd=sd, round=rnd)
+        ncalls = 300
+        for route, draw in (("generate_guess(pars, 1)", lambda: pr.generate_guess(pars, 1)[0]),
+                            ("prior.sample(1)", lambda: np.array([float(np.ravel(q.sample(1))[0]) for q in pars])),
+                            ("generate_guess then prior.sample, alternating", None)):
+            ctx.tried("successive", (route, rnd))
+            if draw is None:
+                rows = []
+                for j in range(ncalls // 2):
+                    rows.append(pr.generate_guess(pars, 1)[0])
+                    rows.append(np.array([float(np.ravel(q.sample(1))[0]) for q in pars]))
+                pooled = np.array(rows)
+            else:
+                pooled = np.array([draw() for _ in range(ncalls)])
+            distinct = len(np.unique(pooled[:, 0]))
+            pu = stats.kstest(pooled[:, 0], stats.uniform(lo, w).cdf).pvalue
+            pg = stats.kstest(pooled[:, 1], stats.norm(mu, sd).cdf).pvalue
+            inb = bool(np.all((pooled[:, 0] >= lo) & (pooled[:, 0] <= lo + w) & (pooled[:, 2] >= mu - 0.7 * sd) & (pooled[:, 2] <= mu + 1.9 * sd)))
+            if distinct < ncalls or pu < 1e-6 or pg < 1e-6 or not inb:
+                ctx.violation("C14:successive-requests", "%d successive draws through %s: %d distinct values, KS p = %.3g (Uniform), %.3g (Gaussian), in support: %s" % (
+                    ncalls, route, distinct, pu, pg, inb), dict(route=route, **info))
+        first = pr.generate_guess([u], 6)[:, 0]
+        later = np.ravel(u.sample(6))
+        b1, b2 = pr.generate_guess([g], 200)[:, 0], pr.generate_guess([g], 200)[:, 0]
+        ctx.tried("successive", ("replay", rnd))
+        if np.array_equal(first, later) or len(np.intersect1d(b1, b2)):
+            ctx.violation("C14:successive-requests:replay", "a later request replays the numbers an earlier generate_guess handed out (sample after guess equal: %s; values shared by two batches: %d)" % (
+                np.array_equal(first, later), len(np.intersect1d(b1, b2))), dict(route="replay", **info))
+
+
 def search(ctx):
     rng = ctx.rng
     n = ctx.n(100, 1000)
+    successive_requests(ctx)
     # deterministic probe of the documented improper-Uniform behaviour (known finding)
     for (lo, hi) in [(0.0, np.inf), (-np.inf, 3.0), (-np.inf, np.inf)]:
         u = Uniform(lo, hi)
